@@ -1745,7 +1745,38 @@ func (b *Block) UnmarshalBinary(data []byte) error {
 	numBytes := uint32(len(data))
 	b.data, b.dataSrc = dvid.New8ByteAlignBytes(numBytes)
 	copy(b.data, data)
-	return b.setExportedVars()
+	if err := b.setExportedVars(); err != nil {
+		return err
+	}
+	return b.checkConsistency()
+}
+
+// checkConsistency returns an error if the sections of a deserialized block do not agree
+// with each other, since all readers of a Block (MakeLabelVolume, CalcNumLabels, Value, ...)
+// index the label table by the sub-block indices and the sub-block labels by the packed
+// values without further checks.
+func (b *Block) checkConsistency() error {
+	if len(b.Labels) <= 1 {
+		return nil
+	}
+	const subBlockNumVoxels = SubBlockSize * SubBlockSize * SubBlockSize
+	var valueBytes uint64
+	for i, num := range b.NumSBLabels {
+		if num > subBlockNumVoxels {
+			return fmt.Errorf("sub-block %d has %d labels, more than its %d voxels", i, num, subBlockNumVoxels)
+		}
+		valueBytes += uint64(bitsFor(num)) * subBlockNumVoxels / 8
+	}
+	numLabels := uint32(len(b.Labels))
+	for i, index := range b.SBIndices {
+		if index >= numLabels {
+			return fmt.Errorf("sub-block index %d is %d, outside the block's %d labels", i, index, numLabels)
+		}
+	}
+	if uint64(len(b.SBValues)) < valueBytes {
+		return fmt.Errorf("block has %d bytes of packed sub-block values when its sub-blocks need %d", len(b.SBValues), valueBytes)
+	}
+	return nil
 }
 
 // StringDump returns a string that lists pretty-printed data from the block.
